@@ -163,7 +163,8 @@ def _rstate(n, r):
 # ----------------------------------------------------------------------------------------------
 
 def rand_circuit(rng: random.Random, n: int, depth: int, three=False, barrier=False, measure=False, block=False,
-                 sq=('h', 't', 'rz', 'u3', 'sx')) -> dict:
+                 sq=('h', 't', 'rz', 'u3', 'sx'), far=False) -> dict:
+    """far: bias the two-qudit gates onto the pair (0, n-1) (forces routing / a non-identity layout on sparse graphs)"""
     ops = []
 
     def one(width_ok):
@@ -172,6 +173,8 @@ def rand_circuit(rng: random.Random, n: int, depth: int, three=False, barrier=Fa
             return ['ccx', rng.sample(range(width_ok), 3), []]
         if width_ok >= 2 and k < 0.6:
             g = rng.choice(['cx', 'cx', 'cz', 'swap'])
+            if far and width_ok >= 3 and rng.random() < 0.6:
+                return [g, rng.sample([0, width_ok - 1], 2), []]
             return [g, rng.sample(range(width_ok), 2), []]
         g = rng.choice(sq)
         npar = {'rz': 1, 'rx': 1, 'ry': 1, 'u1': 1, 'u3': 3}.get(g, 0)
@@ -383,9 +386,22 @@ def _worker(in_path: str, out_path: str, nworkers: int) -> int:
             try:
                 inp = build_input(js)
                 model = build_model(js['model']) if js.get('model') else None
-                out, pi, pf = bq_compile(inp, model, optimization_level=js['level'], max_synthesis_size=js.get('mss', 3),
-                                         error_threshold=js.get('err'), seed=js.get('seed'), compiler=comp,
-                                         with_mapping=True, synthesis_epsilon=js.get('eps', EPS))
+                kw = dict(optimization_level=js['level'], max_synthesis_size=js.get('mss', 3),
+                          error_threshold=js.get('err'), seed=js.get('seed'), with_mapping=True,
+                          synthesis_epsilon=js.get('eps', EPS))
+                try:
+                    out, pi, pf = bq_compile(inp, model, compiler=comp, **kw)
+                except RuntimeError as e:
+                    if 'onnection' not in repr(e):
+                        raise
+                    # the runtime died (not the compilation): start a fresh one and retry once
+                    rec['runtime_restarted'] = repr(e)[:200]
+                    try:
+                        comp.close()
+                    except Exception:  # noqa
+                        pass
+                    comp = Compiler(num_workers=nworkers)
+                    out, pi, pf = bq_compile(inp, model, compiler=comp, **kw)
                 from bqskit.compiler.machine import MachineModel
                 m2 = model if model is not None else MachineModel(inp.num_qudits)
                 rec['out'] = describe(out)
@@ -439,9 +455,12 @@ def _kill(p):
         pass
 
 
-def run_jobs(jobs: list[dict], budget_s: float, per_job_s: float = 150.0, nworkers: int = 4, startup_s: float = 90.0):
+def run_jobs(jobs: list[dict], budget_s: float, per_job_s: float = 150.0, nworkers: int = 4, startup_s: float = 90.0,
+             on_result=None):
     """Run compile() jobs in isolated children.  Returns a list of result records (same order as `jobs`);
-    a record is {'ok': False, 'timeout': True} when the job hung or the budget ran out."""
+    a record is {'ok': False, 'timeout': True} when the job hung or the budget ran out.  `on_result(i, rec)` is
+    called as results arrive; returning True stops the run (remaining jobs are marked skipped)."""
+    stop = False
     t_end = time.time() + budget_s
     results: dict[int, dict] = {}
     pending = list(enumerate(jobs))
@@ -476,8 +495,10 @@ def run_jobs(jobs: list[dict], budget_s: float, per_job_s: float = 150.0, nworke
                     results[d['idx']] = d
                     cur = None
                     cur_t = time.time()
+                    if on_result is not None and on_result(d['idx'], d):
+                        stop = True
             seen = len(lines)
-            if p.poll() is not None:
+            if stop or p.poll() is not None:
                 break
             now = time.time()
             if now > t_end:
@@ -494,6 +515,10 @@ def run_jobs(jobs: list[dict], budget_s: float, per_job_s: float = 150.0, nworke
         if hung is not None and hung not in results:
             results[hung] = dict(idx=hung, ok=False, timeout=True)
         pending = [(i, j) for i, j in pending if i not in results]
+        if stop:
+            for i, _ in pending:
+                results[i] = dict(idx=i, ok=False, skipped=True)
+            pending = []
         if p.returncode not in (0, None, -9) and not started:
             err = ''
             try:
@@ -622,6 +647,8 @@ def input_class_of(cfg_row: dict, init: dict | None, final: dict | None, rng: ra
     init = init or {}
     wd = init.get('wd', 3) or 3
     n = {1: 1, 2: 2, 3: 3, 4: 4}.get(wd, 3)
+    if lvl >= 3 and n > 3:
+        n = 3          # keep the slow levels small; any width >= 2 takes the same branches
     if init.get('nomany') == 0:
         n = max(n, 3)
     extra = 0 if init.get('fullw', 1) else 2
@@ -635,13 +662,28 @@ def input_class_of(cfg_row: dict, init: dict | None, final: dict | None, rng: ra
         seed = 7 if cfg_row['seed'] else None
         if kind == 'circuit':
             cs = rand_circuit(rng, n, rng.randint(4, 7), three=init.get('nomany') == 0, barrier=init.get('noph') == 0,
-                              measure=init.get('ms') == 1, block=init.get('dep', 0) != 0)
+                              measure=init.get('ms') == 1, block=init.get('dep', 0) != 0, far=(i % 2 == 0))
             jobs.append(job('circuit', cs, ms, lvl, seed, err=err, tag='directed'))
         else:
             w = cfg_row['width']
             ms = model_spec(w + extra, shape, gsn)
             jobs.append(job({'system': 'system'}.get(kind, kind), None, ms, lvl, seed, err=err, n=w, iseed=i, tag='directed'))
     return jobs
+
+
+def corpus_jobs(prop: str) -> list[dict]:
+    """corpus/<prop>/*.json: inputs that exposed a defect or a mutant in the past ({'job': ..., 'note': ...}); run first."""
+    out = []
+    d = ROOT / 'corpus' / prop
+    if d.exists():
+        for f in sorted(d.glob('*.json')):
+            try:
+                js = json.loads(f.read_text())['job']
+                js['tag'] = 'corpus:' + f.stem
+                out.append(js)
+            except Exception:  # noqa
+                continue
+    return out
 
 
 def model_spec(n, shape, gates, rng=None):
@@ -672,16 +714,27 @@ def theorem_failure_search(ctx, prop: str, budget: float, judge, fallback_jobs) 
         picked = picked[:8]
         cbs = counter_branches(picked)
         ctx.cov['counter_branches'] = {n: cbs.get(n, {}).get(prop) for n in picked}
-        for n in picked:
-            cb = cbs.get(n, {}).get(prop) or {}
-            jobs += input_class_of(rows[n], cb.get('init'), cb.get('final'), ctx.rng, 3)
+        per = [input_class_of(rows[n], (cbs.get(n, {}).get(prop) or {}).get('init'),
+                              (cbs.get(n, {}).get(prop) or {}).get('final'), ctx.rng, 6) for n in picked]
+        for k in range(6):          # round robin: one input per failing configuration first
+            for js in per:
+                if k < len(js):
+                    jobs.append(js[k])
     else:
         # no diagnosis possible (translator aborted or the Coq side does not build): widen the standing search
         jobs = fallback_jobs(ctx.rng, 6)
     ctx.cov['directed_jobs'] = len(jobs)
-    res = run_jobs(jobs, budget)
+    hits = []
+
+    def on_result(i, r):
+        if judge(ctx, jobs[i], r, 'directed search after a failed theorem'):
+            hits.append(i)
+        return len(hits) >= 2          # two concrete failing inputs are enough
+    res = run_jobs(jobs, budget, on_result=on_result)
     for js, r in zip(jobs, res):
-        judge(ctx, js, r, 'directed search after a failed theorem')
+        if r.get('timeout') or r.get('worker_failed'):
+            judge(ctx, js, r, 'directed search after a failed theorem')
+    ctx.cov['directed_jobs_finished'] = sum(1 for r in res if r.get('ok'))
 
 
 
